@@ -1,7 +1,7 @@
 /-
 C10 driver ops: run the reference DS9 interpreter (`Spec.Ds9.interp`) on a tokenised file.
 
-request  {"op":"ds9.interp","toks":[ "nl" | ";" | "(" | ")" | "," | "+" | "-" | "#"
+request  {"op":"ds9.interp","toks":[ "nl" | ";" | "(" | ")" | "," | "+" | "-" | "#" | "||"
                                      | {"w": "<keyword as written>"}
                                      | {"n": ["dec","p/q","<suffix>"]}
                                      | {"n": ["colon"|"hms"|"dms", neg, a, b, "p/q"]}
@@ -63,6 +63,7 @@ def tokOf (j : Json) : Except String Tok :=
   | .str "+" => pure .plus
   | .str "-" => pure .minus
   | .str "#" => pure .hash
+  | .str "||" => pure .bars
   | .str s => .error s!"bad token {s}"
   | _ =>
     match j.getObjVal? "w", j.getObjVal? "n", j.getObjVal? "p", j.getObjVal? "c" with
